@@ -279,6 +279,39 @@ u_seqsweep(uint64_t idx, void *arg)
     vh_sig(0x08300000ull ^ idx);
 }
 
+/* emissions that exactly fill the peer's frame block (and the two sizes below): the largest frame a receiver with
+ * that block size can take must be accepted by it */
+static void
+u_fit(uint64_t idx, void *arg)
+{
+    (void)arg;
+    vh_rng rg;
+    vh_unit_rng(&rg, "fit", idx);
+    static const size_t bss[] = { 128, 200, 300 };
+    const int serial = (int)(idx & 1), mem16 = (int)((idx >> 1) & 1);
+    const size_t bs = bss[(idx >> 2) % 3];
+    const size_t cap = bs - sizeof(RPFrame), hdr = serial ? 16 : 12;
+    for (size_t less = 0; less < 3; less++) {
+        const size_t pl = cap - hdr - less;
+        static const int entries[] = { E_WR8, E_WR16, E_ACK };
+        for (int ei = 0; ei < 3; ei++) {
+            const int e = entries[ei];
+            const size_t ws = (e == E_WR16 || (e == E_ACK && mem16)) ? 2 : 1;
+            if (pl % ws)
+                continue;
+            vh_arena_reset();
+            rp_setup(&A, serial, mem16, 256);
+            rp_setup(&B, serial, mem16, bs);
+            fill_payload(&rg, pl);
+            VH_CASE4(idx, bs, less, e);
+            one_emit(e, serial, mem16, (uint16_t)vh_rand(&rg), (uint32_t)vh_rand(&rg), pl / ws, RT_READ_REQ, 0, &rg);
+            if (less == 0)
+                VH_COUNT("emission that exactly fills the receiver's frame block");
+        }
+    }
+    vh_sig(0x08400000ull ^ idx);
+}
+
 /* payloads of 2^16 octets and more, and of 2^16 words and more */
 static void
 u_huge(uint64_t idx, void *arg)
@@ -315,6 +348,9 @@ harness_run(void)
             vh_unit("huge", i, u_huge, NULL);
     for (uint64_t i = 0; i < 2u * NEMIT; i++)
         vh_unit("seqsweep", i, u_seqsweep, NULL);
+    for (uint64_t i = 0; i < 12; i++)
+        vh_unit("fit", i, u_fit, NULL);
+    vh_require("emission that exactly fills the receiver's frame block");
     vh_require("sequence-number sweep of an entry point");
     vh_require("emission whose header checksum is 0000");
     vh_require("emission with 65534 or more payload octets");
